@@ -52,7 +52,11 @@ def generate(tier, seed):
     for a in args + STRS:
         reqs += ["(prin1-to-string %s)" % a, "(print %s)" % a, "(princ %s)" % a]
         reqs += ["(prin1-to-string (list %s))" % a, '(format "%%S" %s)' % a, '(format "%%s" (list %s 1))' % a, '(format "%%S|%%s" (list %s) %s)' % (a, a)]
-    reqs += ['(intern "foo")', '(eq (intern "foo") \'foo)', '(intern "")', '(intern "with space")', "(intern 1)", "(intern)", '(make-symbol "foo")',
+    reqs += ['(list (eq (make-symbol ":k") :k) (eq (make-symbol ":k") (make-symbol ":k")) (eq (make-symbol ":k") (intern ":k")) (keywordp (make-symbol ":k")) (make-symbol ":k"))',
+             '(progn (setq gensym-counter 7) (list (eq (gensym ":p") (intern ":p7")) (eq (gensym ":p") :p8) (gensym ":p") gensym-counter))',
+             '(list (eq (make-symbol "nil") nil) (eq (make-symbol "t") t) (null (make-symbol "nil")) (eq (make-symbol "") (intern "")) (eq (make-symbol "car") (quote car)))',
+             '(let ((s (make-symbol ":v"))) (list (eq s s) (equal s :v) (eq s :v) (symbolp s)))',
+             '(intern "foo")', '(eq (intern "foo") \'foo)', '(intern "")', '(intern "with space")', "(intern 1)", "(intern)", '(make-symbol "foo")',
              '(eq (make-symbol "foo") \'foo)', '(symbolp (make-symbol "x"))', "(make-symbol 1)", '(keywordp (make-symbol ":k"))', '(keywordp (intern ":kk"))',
              "(list (gensym) (gensym) (gensym \"p\") gensym-counter)", "(progn (setq gensym-counter 10) (list (gensym) (gensym) gensym-counter))",
              "(progn (setq gensym-counter 'x) (list (gensym) gensym-counter))", "(gensym 1)", "(gensym 'a)",
